@@ -223,6 +223,12 @@ func (f *Frame) call(c *ssa.CallCommon, instr ssa.Value, st *State, reach string
 				g.trusted["crypto/sha256 (hash object modelled: Sum(nil) = sha256raw(bytes written))"] = true
 				return Val{Sort: "Str", Term: g.def(f.name(instr), "Str", fmt.Sprintf("(sha256raw %s)", args[0].Term)), GoT: resT}
 			}
+		case "(github.com/cosmos/cosmos-sdk/types.AccAddress).Equals":
+			// byte-wise equality of two account addresses (the argument arrives boxed in the sdk.Address interface)
+			if len(args) == 2 && args[0].Sort == "Str" && len(args[1].Tuple) == 1 && args[1].Tuple[0].Sort == "Str" {
+				g.trusted["(sdk.AccAddress).Equals (byte-wise equality of the two addresses; both non-empty or both empty)"] = true
+				return Val{Sort: "Bool", Term: g.def(f.name(instr), "Bool", fmt.Sprintf("(= %s %s)", args[0].Term, args[1].Tuple[0].Term)), GoT: resT}
+			}
 		case "encoding/hex.EncodeToString":
 			if len(args) == 1 && args[0].Sort == "Str" {
 				g.useTheory("strings")
